@@ -123,6 +123,11 @@ pub fn gen_pcm(kind: &str, rng: &mut Rng, channels: usize, bps: u32, frames: usi
                     walk[c]
                 }
                 "const" => cval[c],
+                // constants at the rails and with many trailing zero bits (the constant path must not depend on the value)
+                "constlo" => lo,
+                "consthi" => hi,
+                "constm1" => -1i64.max(lo),
+                "constpow" => if bps >= 2 { 1i64 << (bps - 2) } else { 0 },
                 "zero" => 0,
                 "extremes" => {
                     if (i + c) % 2 == 0 { hi } else { lo }
